@@ -146,3 +146,18 @@ def gen_code(config, rng, n):
                     code += bytes([op])
         out.append(bytes(code))
     return out
+
+
+def Has(setlike, x):
+    """x in setlike, for symbolic sets (SSet) and python sets"""
+    if isinstance(setlike, SSet):
+        return setlike.contains(x)
+    return x in setlike
+
+
+def MapHas(m, k):
+    return m.contains(k) if hasattr(m, "contains") else (k in m)
+
+
+def MapAt(m, k):
+    return m.at(k) if hasattr(m, "at") else m.get(k, 0)
